@@ -21,6 +21,7 @@ type Job struct {
 	MaxDepth int
 	MaxPaths int
 	TrackAccess bool
+	DepthIsViolation bool // exceeding the call-depth bound is a violation candidate (C02), not merely inconclusive
 	TimeLimit   time.Duration
 	Budget      int                  // path budget before falling back to Narrow[i]
 	Narrow      []map[string]*DocCfg // successively narrower document bounds
@@ -240,6 +241,7 @@ type Fixture struct {
 	Out     map[string]string      `json:"out,omitempty"`      // engine-predicted outputs
 	Viol    []string               `json:"violations,omitempty"` // labels the engine predicts to fail
 	Panics  bool                   `json:"panics,omitempty"`
+	Approx  bool                   `json:"approx,omitempty"` // an over-approximating stub was used: outputs are not predicted
 }
 
 func sortedNames(m map[string]*Term) []string {
